@@ -320,12 +320,27 @@ class RespRun:
 
             if self.infos[k] is None:
                 self.late_tasks = getattr(self, 'late_tasks', []) + [asyncio.ensure_future(late_register())]
+        elif kind == 'reregister':
+            # the application brings a withdrawn service back under the same name with other data, without probing
+            # (async_update_service on a name that is not registered adds it); its announcements are not awaited
+            k = ev['svc'] % len(self.infos)
+            if self.infos[k] is None and not any(e['kind'] == 'close' for e in self.api_events):
+                d = {kk: vv for kk, vv in self.sc['services'][k].items() if kk != 'late'}
+                d.update(ev['set'])
+                info = sim.make_service_info(d)
+                await host.azc.async_update_service(info)
+                self.infos[k] = info
+                self.model.register(d)
+                self.sc['services'][k] = d
+                w.gseq += 1
+                self.api_events.append({'kind': 'registered', 'g': w.gseq, 't_ms': w.now_ms, 'svc': k, 'desc': dict(d), 're': True})
         elif kind == 'unregister':
             k = ev['svc'] % len(self.infos)
             info = self.infos[k]
             if info is not None:
                 w.gseq += 1
-                self.api_events.append({'kind': 'unregister', 'g': w.gseq, 't_ms': w.now_ms, 'svc': k})
+                self.api_events.append({'kind': 'unregister', 'g': w.gseq, 't_ms': w.now_ms, 'svc': k,
+                                        'desc': dict(self.sc['services'][k])})
                 self.infos[k] = None
                 self.model.unregister(self.sc['services'][k]['name'])
                 task = await host.azc.async_unregister_service(info)
